@@ -18,8 +18,8 @@ from . import vals as V
 
 ROOT = "/verif"
 WORK = os.path.join(ROOT, ".work")
-REPLAYS = os.path.join(ROOT, "replays")
-EVID = os.path.join(ROOT, "evidence")
+REPLAYS = os.environ.get("VERIF_REPLAY_DIR", os.path.join(ROOT, "replays"))
+EVID = os.environ.get("VERIF_EVIDENCE_DIR", os.path.join(ROOT, "evidence"))   # overridden only by mutation campaigns
 NCPU = min(16, os.cpu_count() or 1)
 
 
